@@ -4179,20 +4179,17 @@ func (e *ExpressionEmitter) getExpressionStorageClass(handle ir.ExpressionHandle
 // IDs differ even though the types are logically equivalent. OpCopyLogical (SPIR-V 1.4+)
 // converts between them. Returns the (possibly converted) value ID.
 func (e *ExpressionEmitter) maybeCopyLogicalForStore(pointerExpr, valueExpr ir.ExpressionHandle, valueID uint32) (uint32, error) {
-	valueSC, err := e.getExpressionStorageClass(valueExpr)
-	if err != nil {
-		return 0, err
-	}
 	pointerSC, err := e.getExpressionStorageClass(pointerExpr)
 	if err != nil {
 		return 0, err
 	}
 
-	valueIsWG := valueSC == StorageClassWorkgroup
 	pointerIsWG := pointerSC == StorageClassWorkgroup
 
-	// Only need conversion when crossing the Workgroup boundary.
-	if valueIsWG == pointerIsWG {
+	// Values are always of the decorated type: a load from Workgroup converts at load
+	// time. Only a store through a Workgroup pointer (layout-free pointee) needs a
+	// conversion, wherever the value came from (including another Workgroup load).
+	if !pointerIsWG {
 		return valueID, nil
 	}
 
@@ -4213,35 +4210,10 @@ func (e *ExpressionEmitter) maybeCopyLogicalForStore(pointerExpr, valueExpr ir.E
 		return valueID, nil
 	}
 
-	// Determine the target SPIR-V type ID (what the store pointer expects).
-	var targetTypeID uint32
-	if valueIsWG {
-		// Value is layout-free (from Workgroup), target needs decorated type.
-		var emitErr error
-		targetTypeID, emitErr = e.backend.emitType(*valueTypeHandle)
-		if emitErr != nil {
-			return valueID, emitErr
-		}
-	} else {
-		// Value is decorated, target needs layout-free type (for Workgroup pointer).
-		var err error
-		targetTypeID, err = e.backend.emitTypeWithoutLayout(*valueTypeHandle)
-		if err != nil {
-			return 0, err
-		}
-	}
-
-	// Resolve the current SPIR-V type of the value. If the value was already
-	// converted at load time (load-conversion pattern), it's already the target type.
-	// OpCopyLogical requires Result Type != Operand type — skip if same.
-	currentTypeID, _ := e.backend.emitType(*valueTypeHandle)
-	if valueIsWG {
-		// Value loaded from Workgroup — check if load-time conversion already applied.
-		// After our load-conversion fix, Workgroup loads return decorated types.
-		// If the target (decorated) matches what the value already is, skip.
-		if targetTypeID == currentTypeID {
-			return valueID, nil
-		}
+	// The value is decorated, the Workgroup pointer expects the layout-free type.
+	targetTypeID, err := e.backend.emitTypeWithoutLayout(*valueTypeHandle)
+	if err != nil {
+		return 0, err
 	}
 
 	// Bump SPIR-V version to 1.4 (minimum for OpCopyLogical).
